@@ -83,3 +83,12 @@ Proof.
   - exact Hs.
   - apply (complete_agrees p _ K). rewrite ET. exact (crash_after_complete ck kind p Hck K n c Hn).
 Qed.
+
+(* per-base values (BigWigRead::values) are a function of the interval answer *)
+Lemma serves_values sizes inp F X : serves sizes inp F X ->
+  exists i, read_info F = Ok i /\ read_info X = Ok i
+    /\ forall infl c vs s e, In (c, vs) (runs inp) -> bw_values infl X i c s e = bw_values infl F i c s e.
+Proof.
+  intros [i [RF [RX Q]]]. exists i. split; [exact RF|]. split; [exact RX|].
+  intros infl c vs s e Hin. destruct (Q infl c vs s e Hin) as [QX QF]. unfold bw_values. now rewrite QX, QF.
+Qed.
